@@ -104,8 +104,15 @@ class KernelSim(WorldBase):
         if self.prop == "C15":
             flows = K.all_flows(case, g, tilings=g.random() < 0.3)
             tflow = dict(g.choice(flows))
+            dyn = [fl for fl in flows if fl.get("tile") and "splits" in fl["tile"]]
+            if dyn and g.random() < 0.5:
+                tflow = dict(g.choice(dyn))
             tflow["body"] = {"mul": g.choice(["pp", "pp", "sp", "ps"]), "acc": g.choice(["iadd", "iadd", "add_assign", "radd"])}
             target = self._gen_session(g, case, tflow, role="target", prefix="tgt")
+            if tflow.get("tile") and "splits" in tflow["tile"] and g.random() < 0.6:
+                # the partitioned rank itself is traced although no loop of the kernel walks it:
+                # building the partitions (from a list or from a leader fiber's coordinates) is not an iteration
+                target["reg"] = target["reg"] + [[tflow["tile"]["rank"], "iter", False]]
             evs.append(["session", dict(target, role="first")])
             evs.append(["session", dict(target, role="off")])
             for h in range(cfg["history"]):
@@ -123,6 +130,20 @@ class KernelSim(WorldBase):
                 self._gen_faults(f, s, cfg["faults"])
                 evs.append(["session", s])
             evs.append(["session", dict(target, role="target", ncu=g.choice(THRESHOLDS))])
+            if g.random() < 0.4:
+                # tiles arrive in increasing coordinate order (what the position shortcut assumes)
+                S = g.randint(6, 40)
+                cs = sorted(g.sample(range(S), g.randint(2, min(S, 12))))
+                ntiles = g.randint(1, 4)
+                cuts = sorted(g.sample(range(1, len(cs)), min(ntiles - 1, len(cs) - 1)))
+                tiles, lo = [], 0
+                for hi in cuts + [len(cs)]:
+                    tiles.append([[c, g.choice([1, 2, 3])] for c in cs[lo:hi]])
+                    lo = hi
+                init = [[c, g.choice([1, 2, 5])] for c in sorted(g.sample(range(S), g.randint(0, min(S, 5))))]
+                evs.append(["tilepop", {"S": S, "init": init, "tiles": [t for t in tiles if t],
+                                        "regmask": g.randrange(1, 16), "startpos": g.random() < 0.75,
+                                        "ncu": g.choice([None, None] + list(THRESHOLDS))}])
             return evs
         if self.prop == "C16":
             flows = K.all_flows(case, g, tilings=g.random() < 0.3)
@@ -214,6 +235,13 @@ class KernelSim(WorldBase):
             nl = g.randint(1, 6)
             S = g.randint(1, 7)
             lists = [sorted(g.sample(range(S), g.randint(1, S))) for _ in range(nl)]
+            if g.random() < 0.5:
+                # all coordinates distinct across the lists (no ties between heads)
+                pool = list(range(8))
+                g.shuffle(pool)
+                nl = g.randint(2, 5)
+                cuts = sorted(g.sample(range(1, 8), nl - 1))
+                lists = [sorted(pool[lo:hi]) for lo, hi in zip([0] + cuts, cuts + [8])]
             for radix in (2, 3, 4, "inf"):
                 for lat in (1, 2, 5, "N"):
                     evs.append(["swaps", {"lists": lists, "radix": radix, "latency": lat,
@@ -269,6 +297,8 @@ class KernelSim(WorldBase):
                 return self.ev_projhist(ev[1])
             if kind == "conv":
                 return self.ev_conv(ev[1])
+            if kind == "tilepop":
+                return self.ev_tilepop(ev[1])
             if kind == "swaps":
                 return self.ev_swaps(ev[1])
             if self.case is None:
@@ -295,8 +325,10 @@ class KernelSim(WorldBase):
         want = sorted(j for i in idxs for j in ((i + ".1", i + ".0") if tile and i == tile["rank"] else (i,)))
         if sorted(flow["order"]) != want:
             raise Skip("flow does not fit case")
-        if tile and not (1 <= tile["step"] <= case["shapes"][tile["rank"]]):
+        if tile and "splits" not in tile and not (1 <= tile["step"] <= case["shapes"][tile["rank"]]):
             raise Skip("tile step")
+        if tile and "splits" in tile and (not tile["splits"] or tile["splits"][0] != 0):
+            raise Skip("tile splits")
 
     def _operands_unchanged(self, culprit):
         for n, t in self.tensors.items():
@@ -537,6 +569,110 @@ class KernelSim(WorldBase):
                        f"{'missing' if b is None else str(len(b.splitlines())) + ' lines'}")
             if self.nsess > 3:
                 self.probe("target_after_history")
+
+    # ---- C15: an output updated tile by tile with the documented position shortcut
+    TILE_TRACES = ["iter", "populate_read_0", "populate_write_0", "populate_1"]
+
+    def ev_tilepop(self, a):
+        """for each tile: for m, (z_ref, t_val) in z_m.__lshift__(t_m, start_pos=z_m.getSavedPos()): z_ref += t_val
+        run with collection off, on with nothing traced, on with a subset of rank M's traces registered:
+        same result, same counts, iteration count = loop bodies"""
+        S = a["S"]
+        init = {c: v for c, v in a["init"]}
+        tiles = [{c: v for c, v in t} for t in a["tiles"]]
+        model = dict(init)
+        bodies = adds = 0
+        for t in tiles:
+            for c in sorted(t):
+                bodies += 1
+                if model.get(c, 0) != 0:
+                    adds += 1
+                model[c] = model.get(c, 0) + t[c]
+        model = {c: v for c, v in model.items() if v != 0}
+
+        def prepare():
+            # operands are built outside the session (as a program builds its tensors before measuring)
+            Z = Tensor(rank_ids=["M"], shape=[S])
+            for c in sorted(init):
+                r = Z.getPayloadRef(c)
+                r <<= init[c]
+            fibs = []
+            for t in tiles:
+                f = Fiber(sorted(t), [t[c] for c in sorted(t)])
+                f.getRankAttrs().setId("M")
+                fibs.append(f)
+            return Z, fibs
+
+        def kernel(prep):
+            Z, fibs = prep
+            z_m = Z.getRoot()
+            n = 0
+            for f in fibs:
+                if a.get("startpos", True):
+                    it = z_m.__lshift__(f, start_pos=z_m.getSavedPos())
+                else:
+                    it = z_m << f
+                for m, (z_ref, t_val) in it:
+                    z_ref += t_val
+                    n += 1
+            errs = ob.wellformed(z_m, 1)
+            return ob.content(z_m), n, errs
+
+        regs = [[], [t for i, t in enumerate(self.TILE_TRACES) if (a.get("regmask", 0) >> i) & 1]]
+        results = []
+        try:
+            results.append(("off", kernel(prepare()), None, None))
+        except Exception as e:
+            results.append(("off", f"raised {type(e).__name__}: {str(e)[:60]}", None, None))
+        for k, reg in enumerate(regs):
+            self.fs.reset_counters()
+            self.fs.disarm()
+            self.nsess += 1
+            prefix = os.path.join(self.scratch, f"tp{self.nsess}")
+            info = None
+            prep = prepare()
+            try:
+                Metrics.beginCollect(prefix)
+                if a.get("ncu"):
+                    Metrics.setNumCachedUses(a["ncu"])
+                for typ in reg:
+                    Metrics.trace("M", typ)
+                r = kernel(prep)
+                dump = Metrics.dump()
+                comp = dump.get("Compute", {})
+                info = [comp.get("payload_update", 0), comp.get("payload_add", 0)]
+            except Exception as e:
+                r = f"raised {type(e).__name__}: {str(e)[:60]}"
+            finally:
+                try:
+                    Metrics.endCollect()
+                except Exception:
+                    pass
+            iters = None
+            if "iter" in reg and not isinstance(r, str):
+                try:
+                    iters = Compute.numIters(prefix + "-M-iter.csv")
+                except Exception as e:
+                    iters = f"raised {type(e).__name__}"
+            results.append((f"on, traced {reg}", r, info, iters))
+        self.probe("tilepop")
+        for name, r, info, iters in results:
+            if isinstance(r, str):
+                self.V("C15", "C15.transparent", "tilepop", f"[{name}] the tiled update {r} ({a})")
+                continue
+            content, n, errs = r
+            got = {pt[0]: v for pt, v in content.items()}
+            if got != model or errs:
+                self.V("C15", "C15.transparent", "tilepop",
+                       f"[{name}] the tiled update (start_pos={a.get('startpos', True)}) gives {got}, the model {model} {errs[:1]}")
+            if n != bodies:
+                self.V("C15", "C15.transparent", "tilepop", f"[{name}] {n} loop bodies ran, the model says {bodies}")
+            if info is not None and info != [bodies, adds]:
+                self.V("C15", "C15.op-counts", "tilepop",
+                       f"[{name}] Metrics reports update/add = {info}, the kernel executed {[bodies, adds]}")
+            if iters is not None and iters != bodies:
+                self.V("C15", "C15.iter-count", "tilepop", f"[{name}] numIters = {iters}, loop bodies = {bodies}")
+        return {"bodies": bodies}
 
     # ---- C16
     def _drain(self, reg, batches):
@@ -1044,6 +1180,16 @@ class KernelSim(WorldBase):
         else:
             # unbounded latency: the exact comparison count is the implementation's convention; every element
             # that enters a merge group costs at least one comparison and at most one per list of its group
+            allc = [c for l in lists for c in l]
+            if len(set(allc)) == len(allc):
+                # all coordinates distinct: no ties, the merger's count is determined - placing a head among the
+                # current heads costs one comparison per head with a smaller coordinate, plus one
+                want = swaps_distinct_ref(lists, radix) * mult
+                self.probe("swaps_unbounded_latency_exact")
+                if got != want:
+                    self.V("C19", "C19.swaps", "swaps",
+                           f"numSwaps(radix={a['radix']}, latency=N, depth={depth}) = {got}; merging round by round, each head "
+                           f"placed at the cost of the heads with a smaller coordinate + 1, gives {want} for lists {lists}")
             lo, hi = swaps_bounds(lists, radix)
             if not (lo * mult <= got <= hi * mult):
                 self.V("C19", "C19.swaps", "swaps",
@@ -1118,6 +1264,35 @@ def swaps_ref(lists, radix, latency):
             grp = cur[i:i + r]
             merged = sorted(c for l in grp for c in l)
             total += latency * (len(grp) + len(merged))
+            nxt.append(merged)
+        cur = nxt
+    return total
+
+
+def swaps_distinct_ref(lists, radix):
+    """unbounded latency, all coordinates distinct: a merger of r lists keeps one head per non-exhausted list;
+    placing a coordinate among the heads costs (heads with a smaller coordinate) + 1; the smallest head leaves"""
+    cur = [sorted(l) for l in lists]
+    total = 0
+    while len(cur) > 1:
+        r = int(min(radix, len(cur)))
+        nxt = []
+        for i in range(0, len(cur), r):
+            grp = [list(l) for l in cur[i:i + r]]
+            heads = []          # (coordinate, list index)
+            for k, l in enumerate(grp):
+                x = l.pop(0)
+                total += sum(1 for h, _ in heads if h < x) + 1
+                heads.append((x, k))
+            merged = []
+            while heads:
+                heads.sort()
+                x, k = heads.pop(0)
+                merged.append(x)
+                if grp[k]:
+                    y = grp[k].pop(0)
+                    total += sum(1 for h, _ in heads if h < y) + 1
+                    heads.append((y, k))
             nxt.append(merged)
         cur = nxt
     return total
